@@ -219,7 +219,64 @@ class RetryAsync(_RetryBase):
     is_async = True
 
 
-CONTRACTS = [RetrySync(), RetryAsync()]
+class _Closure(Contract):
+    """_wrap_sync / _wrap_async up to the point where `wrapped` is defined: the loop runs with exactly the configuration it was
+    given - the closure captures `function`, `limit`, `delay` and the caught classes unchanged (the two loop contracts above
+    start from such a closure)."""
+    props = ("C14",)
+    is_async = False
+
+    def callee(self, it, fv):
+        if fv.qualname == "mimic_function":
+            lib.used("callee:mimic_function(C18-P4)")
+            return lambda it2, fv2, cargs, node: it2.st.reg_fun(OracleV("mimic-decorator", spec=lambda it3, ov, ca, n: ca.pos[0]))
+        return None
+
+    def setup(self, it, env):
+        st = it.st
+        self.fn = st.reg_fun(OracleV("function", is_async=self.is_async))
+        self.limit = V.VInt(st.fresh("limit", I))
+        st.assume(V.ival(self.limit) > 0)
+        self.delay = st.fresh_val("delay")
+        self.catching, self.carr, self.clo, self.chi = sym_seq(it, "catching", "tuple" if st.fork("caught-as", [("tuple", True), ("set", True)]) == 0 else "set")
+        return None, CallArgs([self.fn], {"limit": self.limit, "delay": self.delay, "catching": self.catching})
+
+    def on_return(self, it, ret):
+        st = it.st
+        fv = st.fun_of(ret) if it.kind(ret) == "function" else None
+        ok = isinstance(fv, FuncV)
+        st.check("P6:the-retry-loop-closure-is-returned", z3.BoolVal(bool(ok)))
+        if not ok:
+            return
+        env = fv.env
+        for nm, want in (("function", self.fn), ("limit", self.limit), ("delay", self.delay)):
+            got = env.lookup(nm)
+            st.check(f"P6:the-loop-runs-with-the-given-{nm}", z3.BoolVal(got is not None) if got is None else got == want)
+        got = env.lookup("catching")
+        sv = lib.seq_view(it, got) if got is not None else None
+        if sv is None:
+            st.check("P6:the-loop-tests-failures-against-exactly-the-given-classes(a-re-iterable-collection-of-them)", z3.BoolVal(False))
+            return
+        arr, lo, hi = sv
+        i = st.fresh("i", I)
+        st.check("P6:the-loop-tests-failures-against-exactly-the-given-classes(a-re-iterable-collection-of-them)",
+                 z3.And(hi - lo == self.chi - self.clo,
+                        z3.Implies(z3.And(0 <= i, i < hi - lo), z3.Select(arr, lo + i) == z3.Select(self.carr, self.clo + i))))
+
+    def on_raise(self, it, exc):
+        it.st.check("P6:wrapping-fails-only-on-its-own-precondition(limit > 0)", z3.BoolVal(False))
+
+
+class ClosureSync(_Closure):
+    file, func, name = "helpers/retries.py", "_wrap_sync", "C14/retries:_wrap_sync(closure)"
+
+
+class ClosureAsync(_Closure):
+    file, func, name = "helpers/retries.py", "_wrap_async", "C14/retries:_wrap_async(closure)"
+    is_async = True
+
+
+CONTRACTS = [RetrySync(), RetryAsync(), ClosureSync(), ClosureAsync()]
 
 
 class RetryFactory(Contract):
